@@ -107,6 +107,10 @@ func (ex *Exec) callFunc(st *State, frID int, instr ssa.Instruction, fn *ssa.Fun
 		// erased calls have no contract-relevant effect; results (if any) are unconstrained,
 		// except level checks which are taken as "disabled"
 		res := fn.Signature.Results()
+		if strings.HasPrefix(fn.Name(), "Fatal") {
+			// log.Fatal*: the process exits here (deliberately); the path ends
+			return
+		}
 		if res.Len() == 1 && kindOf(res.At(0).Type()) == KBool && strings.Contains(name, "IsLevelEnabled") {
 			k(st, []Val{False})
 			return
